@@ -112,8 +112,8 @@ def run(db, chk):
                                 and x.terms[0][0] == "norm"):
                             ok3 = False
                             continue
-                        _, num, den, den_id = x.terms[0]
-                        sums.add(den_id)
+                        _, num, den, den_obj = x.terms[0]
+                        sums.add(id(den_obj))       # (the term keeps the divisor alive: ids are unique)
                         if sorted(den) != sorted("n%d" % n.k for n in L):
                             ok3 = False
                         if list(num) != ["n%d" % L[j].k]:
